@@ -85,9 +85,9 @@ def gen_spec(rng, tier, allow_scale=False):
     spec = {"kind": "sliding", "dtype": rng.choice(["f", "d"]), "sol_dim": rng.randint(1, 3), "extras": rng.choice(au.EXTRA_LAYOUTS),
             "lr": None, "tmin": None, "offset": rng.choice([0.0, -2.0, 1.5]), "dims": dims, "ranges": ranges,
             "remap_frequency": freq, "buffer_capacity": cap, "seed": rng.randrange(1 << 30), "mscale": mscale, "odtype": odtype}
-    if allow_scale and rng.random() < 0.35:
+    if rng.random() < 0.35:
         spec["relay"] = {"how": rng.choice(["deepcopy", "pickle", "fork-deepcopy", "fork-pickle"]), "every": rng.choice([1, 2, 3, 5])}     # see arch_util.relay
-    if allow_scale and rng.random() < 0.3:
+    if rng.random() < 0.3:
         spec["reuse"] = rng.randrange(1, 1 << 30)      # see arch_util.reuse_buffers
     return spec
 
